@@ -293,6 +293,49 @@ def run(ck):
                               'got': got if isinstance(got, str) else got[:50]})
                 break
     ck.count('matcher_history_sessions', nh)
+    # the same with use2dhist=False and a user-supplied offset estimate: catalogs whose true offsets are each within
+    # the tolerance of the estimate but farther than the tolerance from each other
+    nh2 = 0
+    for t in range(0, 5 * ck.n(30, 200)):
+        pr = make_problem(hist_rng, t)
+        if pr is None or pr['use2d']:
+            continue
+        nh2 += 1
+        pos_ref = {s: i for i, s in enumerate(pr['ref_ids'])}
+        truth = sorted((pos_ref[s], k) for k, s in enumerate(pr['im_ids']) if s in pos_ref)
+        rt = Table([[v[0] for v in pr['ref']], [v[1] for v in pr['ref']]], names=('TPx', 'TPy'))
+        est = (pr['xo'], pr['yo'])
+        sgn = 1.0 if t % 2 else -1.0
+
+        def shifted(dx, dy):
+            return Table([[v[0] - pr['u'][0] * pr['p'] + est[0] + dx * pr['tol'] for v in pr['im']],
+                          [v[1] - pr['u'][1] * pr['p'] + est[1] + dy * pr['tol'] for v in pr['im']]], names=('TPx', 'TPy'))
+        cats = (('A (estimate - 0.7 tol)', shifted(-0.7 * sgn, 0.3)), ('B (estimate + 0.7 tol)', shifted(0.7 * sgn, -0.3)),
+                ('A again', shifted(-0.7 * sgn, 0.3)), ('C (estimate exact)', shifted(0.0, 0.0)))
+        m = XYXYMatch(searchrad=pr['sr'], separation=pr['sep'], tolerance=pr['tol'], use2dhist=False,
+                      xoffset=est[0], yoffset=est[1])
+        seq = []
+        for label, it in cats:
+            ck.search_evaluations += 1
+            try:
+                ri, ii = m(rt, it, tp_pscale=pr['p'], tp_units='u')
+                got = sorted(zip([int(v) for v in ri], [int(v) for v in ii]))
+            except Exception as e:   # noqa: BLE001
+                got = 'raised %s: %s' % (type(e).__name__, e)
+            seq.append((label, got == truth))
+            if got != truth:
+                ck.violation({'kind': 'matcher reused for a history of calls does not return the true pairs',
+                              'call_sequence_on_one_XYXYMatch_object': [s_[0] for s_ in seq],
+                              'per_call_ok': [s_[1] for s_ in seq], 'pscale': pr['p'], 'searchrad': pr['sr'],
+                              'tolerance': pr['tol'], 'separation': pr['sep'], 'use2dhist': False,
+                              'xoffset, yoffset (estimate)': list(est), 'ref': pr['ref'],
+                              'catalogs': 'im_k = ref-frame position + estimate + (dx, dy) * tolerance; (dx, dy) = '
+                                          '(-+0.7, 0.3), (+-0.7, -0.3), again the first, (0, 0)',
+                              'ref_frame_positions_of_im': [[v[0] - pr['u'][0] * pr['p'], v[1] - pr['u'][1] * pr['p']]
+                                                            for v in pr['im']],
+                              'expected_pairs': truth, 'got': got if isinstance(got, str) else got[:50]})
+                break
+    ck.count('matcher_history_sessions_user_offset', nh2)
     bad = ck.coq_agree('match', IMPORTS, 'case11', 'agree11', cases, show='show11', shard=ck.n(30, 100))
     for i in bad:
         rp = dict(meta[i])
